@@ -115,6 +115,16 @@ theorem augLeB_iff (S : α) (t : Tree α) : augLeB S t = true ↔ AugLe S t := b
       decide_eq_false_iff_not, not_lt, ihl, ihr]
     tauto
 
+theorem AugLe.toQ {S : α} {t : Tree α} (h : AugLe S t) : AugLeQ S t := by
+  cases t with
+  | nil => trivial
+  | node l n mx c r => exact ⟨h.2.1, h.2.2⟩
+
+theorem augLeQB_iff (S : α) (t : Tree α) : augLeQB S t = true ↔ AugLeQ S t := by
+  cases t with
+  | nil => simp [augLeQB, AugLeQ]
+  | node l n mx c r => simp only [augLeQB, AugLeQ, Bool.and_eq_true, augLeB_iff]
+
 theorem exactB_iff (S : α) (t : Tree α) : exactB S t = true ↔ Exact S t := by
   induction t with
   | nil => simp [exactB, Exact]
@@ -194,12 +204,26 @@ theorem short_le {S : α} {t : Tree α} (K g : α) (hS : S ≤ g) (hb : BST t) (
         exact max_le (max_le hr' hlmax) hn
       · exact hS
 
-/-- the stored-maximum shortcut is an upper bound only of gradients that nearer nodes really have:
-    if it exceeds `g`, some nearer node's minimum gradient does -/
-theorem lt_short {S : α} {t : Tree α} (K g : α) (hS : S ≤ g) (hb : BST t) (ha : AugLe S t)
-    (h : g < short S t K) : ∃ n ∈ t.toList, n.key < K ∧ g < minv n := by
-  by_contra hne
-  push Not at hne
-  exact absurd (short_le K g hS hb ha hne) (not_le.mpr h)
+/-- the same when only the subtrees below the root are free of overestimates: the root's own stored
+    maximum is never read -/
+theorem short_le_Q {S : α} {t : Tree α} (K g : α) (hS : S ≤ g) (hb : BST t) (ha : AugLeQ S t)
+    (hall : ∀ n ∈ t.toList, n.key < K → minv n ≤ g) : short S t K ≤ g := by
+  cases t with
+  | nil => simpa [short] using hS
+  | node l n mx c r =>
+    obtain ⟨hl, hr, hbl, hbr⟩ := hb
+    obtain ⟨hal, har⟩ := ha
+    simp only [short, mx2_eq_max]
+    split
+    · exact short_le K g hS hbl hal (fun a h => hall a (by simp [Tree.toList, h]))
+    · split
+      · rename_i h1 h2
+        have hr' := short_le K g hS hbr har (fun a h => hall a (by simp [Tree.toList, h]))
+        have hn : minv n ≤ g := hall n (by simp [Tree.toList]) h2
+        have hlmax : mxOf S l ≤ g :=
+          le_trans hal.mxOf_le ((trueMax_le_iff S l g).mpr ⟨hS, fun a h =>
+            hall a (by simp [Tree.toList, h]) (lt_trans (hl a h) h2)⟩)
+        exact max_le (max_le hr' hlmax) hn
+      · exact hS
 
 end XrsVerif.Viewshed
